@@ -8,6 +8,7 @@
 //   dumpstr A            GetDumpString of the last run    -> "dump <hex>"
 //   sel A                selected-output table (all user numbers)  -> "sel <n> | <cells row-major ; separated>" per user number
 //   rawall A             dump_raw of every entity in the engine's maps (friend access) -> "raw <hex>"
+//   rawall17 A           the same for entities numbered >= 0, doubles written with 17 significant digits (exact)    -> "raw <hex>"
 //   bincopy A B          phreeqc2cxxStorageBin(A) ; cxxStorageBin2phreeqc(B)          -> "ok"
 //   bincopyn A B n       the same for one user number                                  -> "ok"
 //   sercopy A B lo hi    Serializer::Serialize(A, lo..hi, T and P included) ; Deserialize into B -> "ok <nints> <ndoubles>"
@@ -47,13 +48,48 @@
 #include "Serializer.h"
 #include "hx.hpp"
 #include <map>
+#include <locale>
+#include <algorithm>
 #include <cfloat>
+
+// every dump_raw sets the stream precision to 14 digits itself; a num_put facet that ignores the precision lets the harness obtain
+// the same RAW text with 17 significant digits (exact doubles) without touching the library
+struct Put17 : std::num_put<char> {
+  iter_type do_put(iter_type out, std::ios_base& s, char fill, double v) const override {
+    char b[48]; int n = snprintf(b, sizeof b, "%.17g", v); return std::copy(b, b + n, out);
+  }
+  iter_type do_put(iter_type out, std::ios_base& s, char fill, long double v) const override {
+    char b[64]; int n = snprintf(b, sizeof b, "%.21Lg", v); return std::copy(b, b + n, out);
+  }
+};
 
 class TestIPhreeqc {
 public:
   static Phreeqc* engine(IPhreeqc* p) { return p->PhreeqcPtr; }
-  template <class T> static void dumpmap(std::ostringstream& o, std::map<int, T>& m) {
-    for (typename std::map<int, T>::iterator it = m.begin(); it != m.end(); ++it) { int key = it->first; it->second.dump_raw(o, 0, &key); }
+  // dump_raw of every entity with a non-negative number, doubles written exactly (17 significant digits)
+  static std::string rawall17(IPhreeqc* p) {
+    Phreeqc* e = p->PhreeqcPtr;
+    std::ostringstream o;
+    o.imbue(std::locale(o.getloc(), new Put17));
+    dumpmap(o, e->Rxn_solution_map, true);
+    dumpmap(o, e->Rxn_exchange_map, true);
+    dumpmap(o, e->Rxn_surface_map, true);
+    dumpmap(o, e->Rxn_gas_phase_map, true);
+    dumpmap(o, e->Rxn_pp_assemblage_map, true);
+    dumpmap(o, e->Rxn_ss_assemblage_map, true);
+    dumpmap(o, e->Rxn_kinetics_map, true);
+    dumpmap(o, e->Rxn_mix_map, true);
+    dumpmap(o, e->Rxn_reaction_map, true);
+    dumpmap(o, e->Rxn_temperature_map, true);
+    dumpmap(o, e->Rxn_pressure_map, true);
+    return o.str();
+  }
+  template <class T> static void dumpmap(std::ostringstream& o, std::map<int, T>& m, bool nonneg = false) {
+    for (typename std::map<int, T>::iterator it = m.begin(); it != m.end(); ++it) {
+      int key = it->first;
+      if (nonneg && key < 0) continue;
+      it->second.dump_raw(o, 0, &key);
+    }
   }
   static std::string rawall(IPhreeqc* p) { return rawall_engine(p->PhreeqcPtr); }
   // Phreeqc copy constructor (→ InternalCopy) into a stand-alone engine; dump_raw text of the copy
@@ -242,6 +278,7 @@ int main() {
       (void)n;
       std::cout << "\n";
     }
+    else if (op == "rawall17") std::cout << "raw " << hx::hex(TestIPhreeqc::rawall17(a)) << "\n";
     else if (op == "rawall") std::cout << "raw " << hx::hex(TestIPhreeqc::rawall(a)) << "\n";
     else if (op == "icopyraw") {
       try { std::cout << "raw " << hx::hex(TestIPhreeqc::icopyraw(a)) << "\n"; }
